@@ -135,6 +135,33 @@ func c08Run(c *Ctx) {
 			}
 		}
 	}
+	// 3c. literal forms: what a valid numeric / string literal may look like is part of the language
+	for _, lit := range []string{"0", "00", "007", "9223372036854775807", "9223372036854775808", "18446744073709551615", "18446744073709551616", "99999999999999999999", "123456789012345678901234567890",
+		"1" + strings.Repeat("0", 308), "1" + strings.Repeat("0", 309), "0." + strings.Repeat("0", 400) + "1", "18446744073709551616.5", "\u09e7\u09ee\u09ea\u09ea\u09ec\u09ed\u09ea\u09ea\u09e6\u09ed\u09e9\u09ed\u09e6\u09ef\u09eb\u09eb\u09e7\u09ec\u09e7\u09ec",
+		"1.5", "1.", ".5", "1..2", "1.2.3", `""`, `"\n"`, `"a\nb"`, `"\\"`, `"'"`, `"//"`, `"/*"`} {
+		for _, form := range []string{K["print"] + " %s;", K["print"] + " %s > 1;", K["var"] + " v = %s;", "[%s, %s];", "f(%s);"} {
+			if c.Mine() {
+				judge(&Case{Gen: "literal-forms", Src: strings.ReplaceAll(form, "%s", lit)})
+			}
+		}
+	}
+	// 3d. which characters may appear where: the whole Bengali block, and representatives of every other
+	// kind of code point, alone, inside an identifier and as a name being declared
+	var cps []rune
+	for r := rune(0x0980); r <= 0x09FF; r++ {
+		cps = append(cps, r)
+	}
+	for _, r := range []rune{0x00, 0x07, 0x1b, 0x7f, 0x80, 0xa0, 0xa9, 0xaa, 0xb2, 0xb5, 0xbc, 0xd7, 0xe9, 0x2bc, 0x300, 0x37e, 0x3a9, 0x660, 0x966, 0x96f, 0x9e5, 0xa66, 0xe50, 0x2000, 0x200b, 0x200c, 0x200d, 0x2028, 0x2044, 0x20a8, 0x20b9, 0x2160, 0x2460, 0x3000, 0x3007, 0x4e00, 0xac00, 0xd7ff, 0xe000, 0xfe0f, 0xfeff, 0xff10, 0xff21, 0xfffd, 0x10000, 0x1d7ce, 0x1f600, 0xe0001, 0x10ffff} {
+		cps = append(cps, r)
+	}
+	for _, r := range cps {
+		ch := string(r)
+		for _, form := range []string{K["var"] + " %s = 5; " + K["print"] + " %s;", K["print"] + " a%s;", "a%sb = 1;", K["print"] + " {%s: 1};", K["print"] + " 1 %s 2;", "%s"} {
+			if c.Mine() {
+				judge(&Case{Gen: "code-point-classes", Src: strings.ReplaceAll(form, "%s", ch)})
+			}
+		}
+	}
 	// 4. reserved names and the parameter limit
 	names := []string{"input"}
 	for _, n := range ref.BI {
@@ -331,7 +358,7 @@ func init() {
 		Run:         c08Run,
 		Judge:       c08Judge,
 		MustCount: func(c *Ctx) []string {
-			return []string{"accepted", "rejected_syntax", "rejected_lexical", "rejected_assign_target", "gen:nothing-runs", "gen:deep-nest", "gen:param-limit", "gen:reserved-names", "gen:assignment-targets", "cli_rejected_clean", "gen:prefix-extension"}
+			return []string{"accepted", "rejected_syntax", "rejected_lexical", "rejected_assign_target", "gen:nothing-runs", "gen:deep-nest", "gen:param-limit", "gen:reserved-names", "gen:assignment-targets", "gen:literal-forms", "gen:code-point-classes", "cli_rejected_clean", "gen:prefix-extension"}
 		},
 	})
 }
